@@ -82,15 +82,16 @@ func (t TxRes) Key() string {
 
 // BlockAttempt is one (possibly partial) execution of a block by a replica.
 type BlockAttempt struct {
-	Height     int64
-	Begin      *abci.RequestBeginBlock
-	Txs        []TxRes
-	TxBytes    [][]byte
-	EndDone    bool
-	ValUpdates string
-	Committed  bool
-	AppHash    []byte
-	Handshake  bool
+	Height      int64
+	Begin       *abci.RequestBeginBlock
+	Txs         []TxRes
+	TxBytes     [][]byte
+	EndDone     bool
+	BlockEvents string // canonical rendering of the BeginBlock and EndBlock events (compared where events are)
+	ValUpdates  string
+	Committed   bool
+	AppHash     []byte
+	Handshake   bool
 }
 
 // CheckRec is one recorded CheckTx call.
@@ -301,6 +302,7 @@ func (ip *interposer) BeginBlock(req abci.RequestBeginBlock) (res abci.ResponseB
 	t.Attempts = append(t.Attempts, t.cur)
 	t.lastHeight = h
 	ip.guard("BeginBlock", func() { res = ip.inner.BeginBlock(req) })
+	t.cur.BlockEvents = "begin[" + eventsKey(res.Events) + "]"
 	ip.at(CBeginBlock, h, 0, true)
 	return
 }
@@ -327,6 +329,7 @@ func (ip *interposer) EndBlock(req abci.RequestEndBlock) (res abci.ResponseEndBl
 	if t.cur != nil {
 		t.cur.EndDone = true
 		t.cur.ValUpdates = ValUpdatesOrdered(res.ValidatorUpdates)
+		t.cur.BlockEvents += " end[" + eventsKey(res.Events) + "]"
 	}
 	ip.at(CEndBlock, req.Height, 0, true)
 	return
@@ -383,6 +386,9 @@ func CompareEvents(ref, got *BlockAttempt) string {
 		if i < len(ref.Txs) && ref.Txs[i].Events != tr.Events {
 			return fmt.Sprintf("h%d tx#%d: DeliverTx events differ: ref[%s] got[%s]", got.Height, i, clip(ref.Txs[i].Events), clip(tr.Events))
 		}
+	}
+	if got.EndDone && ref.EndDone && ref.BlockEvents != got.BlockEvents {
+		return fmt.Sprintf("h%d: BeginBlock/EndBlock events differ: ref[%s] got[%s]", got.Height, clip(ref.BlockEvents), clip(got.BlockEvents))
 	}
 	return ""
 }
